@@ -29,18 +29,18 @@ from .world import SimClock, World, rng_state_digest
 
 ALGS = ["cp_als", "cp_apr_mu", "cp_apr_pdnr", "cp_apr_pqnr", "hosvd", "tucker_als", "gcp_lbfgsb"]
 RELS = {
-    "cp_als": ["R1", "R1p", "R2", "R4", "R5", "R6", "R7"],
-    "cp_apr_mu": ["R1", "R1p", "R2", "R2d", "R3", "R4", "R5"],
-    "cp_apr_pdnr": ["R1", "R1p", "R2", "R2d", "R3", "R4", "R5"],
-    "cp_apr_pqnr": ["R1", "R2", "R2d", "R3", "R4", "R5"],
-    "hosvd": ["R1p", "R2", "R6", "R7"],
-    "tucker_als": ["R1", "R1p", "R2", "R4", "R5", "R6", "R7"],
-    "gcp_lbfgsb": ["R1", "R1p", "R2", "R3", "R4"],
+    "cp_als": ["R1", "R1p", "R1s", "R2", "R4", "R5", "R6", "R7"],
+    "cp_apr_mu": ["R1", "R1p", "R1s", "R2", "R2d", "R3", "R4", "R5"],
+    "cp_apr_pdnr": ["R1", "R1p", "R1s", "R2", "R2d", "R3", "R4", "R5"],
+    "cp_apr_pqnr": ["R1", "R1s", "R2", "R2d", "R3", "R4", "R5"],
+    "hosvd": ["R1p", "R1s", "R2", "R6", "R7"],
+    "tucker_als": ["R1", "R1p", "R1s", "R2", "R4", "R5", "R6", "R7"],
+    "gcp_lbfgsb": ["R1", "R1p", "R1s", "R2", "R3", "R4"],
 }
 # R1/R1p/R2/R3 vary only what the simulator owns (seed, call history, output sink, clock): the arithmetic of
 # the run is the same, so the results must be bit-identical (0.0). A print-only branch that touches the
 # running model shows up as a last-bit difference long before it shows up at any rounding tolerance.
-TOL = {"R1": 0.0, "R1p": 0.0, "R1f": 0.0, "R2": 0.0, "R2d": 0.0, "R3": 0.0, "R4": 1e-12, "R5": 1e-8, "R6": 1e-8, "R7": 1e-8}
+TOL = {"R1": 0.0, "R1p": 0.0, "R1s": 0.0, "R1f": 0.0, "R2": 0.0, "R2d": 0.0, "R3": 0.0, "R4": 1e-12, "R5": 1e-8, "R6": 1e-8, "R7": 1e-8}
 FIT_TOL = 1e-6
 PQNR_KNOWN_MSG = "ERROR: L-BFGS first iterate is bad"
 
@@ -133,7 +133,11 @@ class EngineC18:
         if init.get("init_kind") == "explicit":
             rk = init.get("ranks") or [init["rank"]] * N
             lo = 0.05 if (apr or alg == "gcp_lbfgsb") else -1.0
-            init["factors"] = [enc(np.array([[round(g.uniform(lo, 1.0), 6) for _ in range(rk[n])] for _ in range(shape[n])])) for n in range(N)]
+            fmats = [np.array([[round(g.uniform(lo, 1.0), 6) for _ in range(rk[n])] for _ in range(shape[n])]) for n in range(N)]
+            if apr and sw.random() < 0.3:
+                d = sw.randrange(N)
+                fmats[d][sw.randrange(shape[d]), :] = 0.0  # an all-zero row: the model is zero on a whole slice
+            init["factors"] = [enc(f) for f in fmats]
         init["dimorder"] = None
         if alg in ("cp_als", "hosvd", "tucker_als") and sw.random() < 0.4:
             d = list(range(N))
@@ -163,6 +167,9 @@ class EngineC18:
         N = len(init["shape"])
         if rel == "R1":
             return {"op": "R1"}
+        if rel == "R1s":
+            # no random start is involved (explicit guess / HOSVD): the result must not depend on the global seed at all
+            return {"op": "R1s", "other_seed": g.randrange(2**31)}
         if rel == "R1p":
             return {"op": "R1p", "prelude": g.choice(["eigs", "ops", "both"])}
         if rel == "R2":
@@ -391,6 +398,10 @@ class EngineC18:
             pass
         elif op == "R1p":
             var = {"prelude": step["prelude"]}
+        elif op == "R1s":
+            if init["alg"] != "hosvd" and init.get("init_kind") != "explicit":
+                raise Skip("start_is_random_or_computed")
+            var = {"np_seed": step["other_seed"]}
         elif op == "R1f":
             return self._fresh_interpreter(init, V, res)
         elif op == "R2":
@@ -504,7 +515,7 @@ class EngineC18:
                 if d <= 100.0 * d_self:
                     raise Skip("ill_conditioned_problem")
             return V("same_model", f"relative difference {d:.3e} > {tol:g} between base and variant {step}")
-        if op in ("R1", "R1p", "R3", "R4") and base["iters"] != other["iters"]:
+        if op in ("R1", "R1p", "R1s", "R3", "R4") and base["iters"] != other["iters"]:
             return V("same_iteration_count", f"{base['iters']} vs {other['iters']} iterations")
         if op == "R2d" and base["iters"] != other["iters"]:
             return V("same_iteration_count", f"deadline cut after {base['iters']} vs {other['iters']} iterations under other verbosity")
